@@ -364,6 +364,12 @@ func (r *Run) RunChildren(spec ChildSpec) {
 	}
 	if spec.Timeout == 0 {
 		spec.Timeout = 20 * time.Minute
+		if r.Tier == "thorough" {
+			// a batch of the thorough tier takes minutes on an idle machine and much longer on a
+			// loaded one; the backstop only has to end runs that are really stuck (the in-child
+			// watchdog classifies those long before)
+			spec.Timeout = 2 * time.Hour
+		}
 	}
 	base := filepath.Join(ScratchBase(), fmt.Sprintf("%s-%d", r.Prop, os.Getpid()))
 	os.MkdirAll(base, 0o755)
